@@ -69,7 +69,7 @@ theorem wheel_roundtrip (pre : List (List Char)) (py abi plat : List Char)
     (hlen : pre.length = 2 ∨ pre.length = 3)
     (hpre : ∀ p ∈ pre, '-' ∉ p) (hpy : '-' ∉ py) (habi : '-' ∉ abi) (hplat : '-' ∉ plat) :
     parseWheelTags (joinDash (pre ++ [py, abi, plat]) ++ ".whl".toList) =
-      .ok (splitC '.' py, splitC '.' abi, splitC '.' plat) := by
+      .ok (splitC '.' (py.map Char.toLower), splitC '.' (abi.map Char.toLower), splitC '.' (plat.map Char.toLower)) := by
   have hall : ∀ p ∈ pre ++ [py, abi, plat], '-' ∉ p := by
     intro p hp
     simp only [List.mem_append, List.mem_cons, List.not_mem_nil, or_false] at hp
